@@ -763,25 +763,61 @@ def check_predictor(case):
     calls = case["calls"] if "calls" in case else [case["ranks"]]
     n = len(calls[0])
     backend = case.get("evaluator", "thread_n")
-    members = [(K["loader"] if case.get("loader") else K["member"])(i) for i in range(n)]
     last = len(calls) * n - 1
     res = dict(ok=True, kind="oracle", clause="", sig={}, nontrivial=False,
                desc=["members=%s" % (n if n <= 5 else "6-10" if n <= 10 else "11+"), "calls=%s" % (len(calls) if len(calls) < 3 else "3+"),
                      "last_job_number=%s" % ("<10" if last < 10 else "10-99" if last < 100 else "100+"), "backend=%s" % backend]
                     + (["members_as_loaders"] if case.get("loader") else []))
     m = model()
-    ev = {"thread_n": {"method": "thread", "method_kwargs": {"num_workers": n}}, "thread_default": None,  # (evaluator="serial" cannot be constructed: SerialEvaluator wants a coroutine run-function)
+    weights = [float(i + 1) for i in range(n)]
+    obs = observe_predictor_child(case) if backend == "process" else observe_predictor(case)
+    permuted = 0
+    for c, o in enumerate(obs["calls"]):
+        current = o["current"]
+        if o.get("note"):
+            return dict(res, ok=False, clause="member_order", detail=dict(call=c, note=o["note"]))
+        if "wseen" in o and (o["wseen"] is None or [float(x) for x in o["wseen"]] != [weights[t] for t in current]):
+            return dict(res, ok=False, clause="predict_weights", detail=dict(call=c, weights=o["wseen"], expected=[weights[t] for t in current]))
+        got = [current.index(t) if t in current else n for t in o["tags"]]  # positions in ens.predictors
+        completion = [g for _, g in sorted(zip(o["fin"], got))]  # positions in the order in which the members finished
+        permuted += completion != sorted(completion)
+        base = c * n
+        if len(got) != n or not m.call(F_OKMEMBERS, [n, got]):
+            return dict(res, ok=False, clause="member_order", detail=dict(call=c, job_numbers=[base, base + n - 1], returned=got, completion=completion))
+        mod = m.call(F_BYID, [[base + i, i] for i in completion])
+        if [p[1] for p in mod] != got:
+            return dict(res, ok=False, kind="corr", clause="order_by_id", detail=dict(call=c, model=mod, impl=got, completion=completion))
+    if obs["status"] == "timeout":
+        return dict(res, ok=False, clause="predictor_total", sig={"error": "nontermination"}, detail=obs["detail"])
+    if obs["status"] != "ok":
+        raise RuntimeError(obs["detail"])
+    res["nontrivial"] = permuted > 0 or last >= 10
+    res["desc"].append("completion_order=%s" % ("permuted" if permuted else "as_submitted"))
+    return res
+
+
+def observe_predictor(case):
+    """Runs the implementation part of a predictor case -> dict(status='ok'|'timeout'|'exc', detail, calls=[per call:
+    dict(current=tags in the order of ens.predictors, tags=returned, fin=finishing times[, wseen][, note])])."""
+    from deephyper.ensemble import EnsemblePredictor
+    from deephyper.ensemble.aggregator import MeanAggregator
+
+    K = member_classes()
+    calls = case["calls"] if "calls" in case else [case["ranks"]]
+    n = len(calls[0])
+    backend = case.get("evaluator", "thread_n")
+    members = [(K["loader"] if case.get("loader") else K["member"])(i) for i in range(n)]
+    ev = {"thread_n": {"method": "thread", "method_kwargs": {"num_workers": n}},
+          "thread_default": None,  # (evaluator="serial" cannot be constructed: SerialEvaluator wants a coroutine run-function)
           "process": {"method": "process", "method_kwargs": {"num_workers": min(n, 4)}}}[backend]
     spy = K["spy"]()
     weights = [float(i + 1) for i in range(n)]  # non-uniform: a re-ordering would pair members with other weights
     limit = 60 if backend == "process" else 20
+    out_calls = []
     st, ens = with_watchdog(lambda: EnsemblePredictor(predictors=list(members), aggregator=spy if case.get("via_predict") else MeanAggregator(),
                                                        weights=list(weights), evaluator=ev), seconds=limit, wall=True)
     if st != "ok":
-        if st == "exc":
-            raise ens
-        return dict(res, ok=False, clause="predictor_total", sig={"error": "nontermination"}, detail="constructor: no answer within %ds" % limit)
-    permuted = 0
+        return dict(status=st, detail="constructor: %r" % (ens,), calls=out_calls)
     current = list(range(n))  # tags in the order of ens.predictors
     for c, ranks in enumerate(calls):
         perm = (case.get("reorder") or {}).get(str(c))
@@ -792,35 +828,53 @@ def check_predictor(case):
         for t, mb in enumerate(members):
             mb.delay = case["unit"] * ranks[t]
         X = np.zeros((1, 1))
+        o = dict(current=list(current))
         if case.get("via_predict"):
             spy.seen = None
             st, out = with_watchdog(lambda: ens.predict(X), seconds=limit, wall=True)
             if st == "ok":
                 if spy.seen is None:
-                    return dict(res, ok=False, clause="member_order", detail=dict(call=c, note="predict() never aggregated"))
-                out, wseen = spy.seen
-                if wseen is None or [float(x) for x in wseen] != [weights[t] for t in current]:
-                    return dict(res, ok=False, clause="predict_weights", detail=dict(call=c, weights=wseen, expected=[weights[t] for t in current]))
+                    out_calls.append(dict(o, note="predict() never aggregated"))
+                    break
+                out, o["wseen"] = spy.seen
         else:
             st, out = with_watchdog(lambda: ens.predictions_from_predictors(X, ens.predictors), seconds=limit, wall=True)
-        if st == "timeout":
-            return dict(res, ok=False, clause="predictor_total", sig={"error": "nontermination"}, detail="call %d: no answer within %ds" % (c, limit))
-        if st == "exc":
-            raise out
-        tags = [int(np.asarray(a).reshape(-1)[0]) for a in out]
-        got = [current.index(t) if t in current else n for t in tags]  # positions in ens.predictors
-        fin = [float(np.asarray(a).reshape(-1)[1]) for a in out]
-        completion = [g for _, g in sorted(zip(fin, got))]  # positions in the order in which the members finished
-        permuted += completion != sorted(completion)
-        base = c * n
-        if len(got) != n or not m.call(F_OKMEMBERS, [n, got]):
-            return dict(res, ok=False, clause="member_order", detail=dict(call=c, job_numbers=[base, base + n - 1], returned=got, completion=completion))
-        mod = m.call(F_BYID, [[base + i, i] for i in completion])
-        if [p[1] for p in mod] != got:
-            return dict(res, ok=False, kind="corr", clause="order_by_id", detail=dict(call=c, model=mod, impl=got, completion=completion))
-    res["nontrivial"] = permuted > 0 or last >= 10
-    res["desc"].append("completion_order=%s" % ("permuted" if permuted else "as_submitted"))
-    return res
+        if st != "ok":
+            return dict(status=st, detail="call %d: %s" % (c, "no answer within %ds" % limit if st == "timeout" else repr(out)), calls=out_calls)
+        o["tags"] = [int(np.asarray(a).reshape(-1)[0]) for a in out]
+        o["fin"] = [float(np.asarray(a).reshape(-1)[1]) for a in out]
+        out_calls.append(o)
+    return dict(status="ok", detail="", calls=out_calls)
+
+
+def observe_predictor_child(case):
+    """The process backend leaves worker / resource-tracker processes behind that keep the caller's stdout open: such a
+    case runs in its own interpreter and its own session, and the whole process group is killed afterwards."""
+    import json
+    import os
+    import subprocess
+    import sys
+
+    code = "import sys, json; from vp.props import c20; print('OBS=' + json.dumps(c20.observe_predictor(json.loads(sys.argv[1]))))"
+    p = subprocess.Popen([sys.executable, "-c", code, json.dumps(case)], stdin=subprocess.DEVNULL, stdout=subprocess.PIPE, stderr=subprocess.DEVNULL,
+                         text=True, start_new_session=True, env=dict(os.environ))
+    lines = []
+    try:
+        for line in p.stdout:  # stop reading at the answer: the pipe stays open as long as a straggler lives
+            lines.append(line)
+            if line.startswith("OBS="):
+                break
+    finally:
+        try:
+            os.killpg(p.pid, signal.SIGKILL)
+        except ProcessLookupError:
+            pass
+        p.stdout.close()
+        p.wait()
+    for line in lines:
+        if line.startswith("OBS="):
+            return json.loads(line[4:])
+    return dict(status="exc", detail="child interpreter gave no answer: %r" % "".join(lines)[-500:], calls=[])
 
 
 # ------------------------------------------------------------------ search-on-break
